@@ -108,6 +108,7 @@ func main() {
 			cfg.Deadline = time.Now().Add(*deadline)
 		}
 		rep := eng.Explore(f, cfg)
+		rep.EmitSites = eng.EmitSites()
 		reports = append(reports, rep)
 		fmt.Printf("%s: runs=%d paths=%d pruned=%d nontrivial=%d decisions=%d queries=%d (sat %d unsat %d unknown %d) solver=%.1fs wall=%.1fs violations=%d inconclusive=%d errors=%d\n",
 			r, rep.Runs, rep.Paths, rep.Pruned, rep.NonTrivial, rep.Decisions, rep.Queries, rep.QSat, rep.QUnsat, rep.QUnknown,
